@@ -148,6 +148,13 @@ def check(case, mode):
             raise Violation("meaning-changed", f"after {applied}:\nexpected {show(expected)}\ngot      {show(got)}\n{ctx}", where=name)
         if not (cur.usepulses == c.usepulses):
             raise Violation("usepulses-lost", f"after {applied}: {cur.usepulses} != {c.usepulses}\n{ctx}", where=name)
+        # macro calls are linked to definitions: every link leads into the result's own table
+        from jaqalpaq.core.macro import Macro as _Macro
+        from jaqalpaq.core.gate import GateStatement as _GS
+
+        for g_ in extract.find_objects(cur, lambda x: isinstance(x, _GS) and isinstance(x.gate_def, _Macro)):
+            if cur.macros.get(g_.name) is not g_.gate_def:
+                raise Violation("stale-macro-link", f"after {applied}: a call of {g_.name} is linked to a definition that is not the result's macro {g_.name}\n{ctx}", where=name)
         # idempotence
         st_, again = _apply(name, cur, env)
         if st_ == "err":
